@@ -77,14 +77,19 @@ func NewMachine(prop string, sch *Schema, opts column.Options) *Machine {
 	mc.stopBeat = make(chan struct{})
 	limit := time.Duration(envInt("VERIF_WATCHDOG_S", 300)) * time.Second
 	go func() {
+		// counted in ticks during which no beat arrived, not read off the clock: a process (or
+		// machine) that was stopped for ten minutes loses one tick, not the whole limit
 		tick := time.NewTicker(time.Second)
 		defer tick.Stop()
+		seen, idle := int64(-1), 0
 		for {
 			select {
 			case <-mc.stopBeat:
 				return
 			case <-tick.C:
-				if last := atomic.LoadInt64(&mc.lastBeat); time.Since(time.Unix(0, last)) > limit {
+				if last := atomic.LoadInt64(&mc.lastBeat); last != seen {
+					seen, idle = last, 0
+				} else if idle++; idle > int(limit/time.Second) {
 					watchdogFire(mc.Prop, "a step of a sequential history", limit, func() string {
 						return "(the last lines of the trace; the step after the last line is the one that hangs)\n" + mc.tailTrace(40)
 					})
